@@ -572,7 +572,14 @@ fn index_set(mut left: Object, index: Object, value: Object) -> Result<Object, E
     }
     match left.tag() {
         Type::Array => index_set_array(left.as_vec_mut(), index.as_int(), value)?,
-        Type::String => index_set_string(left.as_string_mut(), index.as_int(), value)?,
+        Type::String => {
+            // Copy the replacement first: it may be (part of) the very string we are about to change
+            let replacement = match value.tag() {
+                Type::String => Some(value.as_str().to_owned()),
+                _ => None,
+            };
+            index_set_string(left.as_string_mut(), index.as_int(), replacement)?
+        }
         _ => {
             return Err(Error::TypeError(format!(
                 "kan niet indexeren in objecten van type {}",
@@ -598,7 +605,11 @@ fn index_set_array(array: &mut Vec<Object>, mut index: isize, value: Object) -> 
     Ok(())
 }
 
-fn index_set_string(string: &mut String, mut index: isize, value: Object) -> Result<(), Error> {
+fn index_set_string(
+    string: &mut String,
+    mut index: isize,
+    value: Option<String>,
+) -> Result<(), Error> {
     let strlen = string.chars().count();
     if index < 0 {
         index += strlen as isize;
@@ -610,11 +621,14 @@ fn index_set_string(string: &mut String, mut index: isize, value: Object) -> Res
         ));
     }
 
-    if value.tag() != Type::String {
-        return Err(Error::TypeError(
-            "kan geen niet-string invoegen op string object".to_string(),
-        ));
-    }
+    let value = match value {
+        Some(value) => value,
+        None => {
+            return Err(Error::TypeError(
+                "kan geen niet-string invoegen op string object".to_string(),
+            ))
+        }
+    };
 
     string.replace_range(
         string
